@@ -133,6 +133,12 @@ def step (_ : St) (w : List String) : St × Out :=
     match fl.toNat?, JVal.parse tree with
     | some flags, some v => ((), opRt flags v)
     | _, _ => ((), { model := "bad-tree" })
+  | ["cpd", fl, _tree, b2] =>
+    -- a double with retained text, deep-copied, the copy set to another value: the copy prints the new value
+    -- (json_object_set_double drops the retained text, also on a copy)
+    match fl.toNat?, JVal.parse ("d" ++ b2) with
+    | some flags, some v => ((), let o := opSer flags v; { o with cov := (o.cov ++ ["cpd"]) })
+    | _, _ => ((), { model := "bad-tree" })
   | ["sset", fl, _h1, h2] =>
     match fl.toNat?, ofHex h2 with
     | some flags, some s => ((), let o := opSer flags (.str s); { o with cov := (o.cov ++ ["sset"]) })
